@@ -23,6 +23,11 @@ type c20Case struct {
 	Bulk int        `json:"bulk,omitempty"`
 	// Only, when set, restricts the enumeration to one (k, elems) pair (stored replays)
 	Only *[2]int `json:"only,omitempty"`
+	// Procs > 0: GOMAXPROCS for the runs (a small value makes the per-row fan-out of a join
+	// exceed the number of workers already for a handful of rows)
+	Procs int `json:"procs,omitempty"`
+	// OnlyPersist restricts a stored replay to the outage mode
+	OnlyPersist bool `json:"only_persist,omitempty"`
 }
 
 func genC20(t *rapid.T) c20Case {
@@ -59,6 +64,7 @@ func genC20(t *rapid.T) c20Case {
 		}
 		return out
 	}
+	c.Procs = gen.Pick(t, []int{0, 0, 1, 2, 2}, "procs")
 	c.Chan = gen.Pick(t, []int{0, 0, 2}, "chan")
 	c.Bulk = gen.Pick(t, []int{0, 1, 2, 10}, "bulk")
 	switch k := gen.Uniform(t, 100, "kind"); {
@@ -125,7 +131,7 @@ func genC20(t *rapid.T) c20Case {
 func checkC20(ctx *pbt.Ctx, c c20Case) error {
 	ctx.Label("kind:" + c.Kind)
 	graphs := datasetGraphs(c.Data)
-	run := RunSpec{Text: c.Text, ChanSize: c.Chan, BulkSize: c.Bulk}
+	run := RunSpec{Text: c.Text, ChanSize: c.Chan, BulkSize: c.Bulk, Procs: c.Procs}
 	rec, err := runBQL(BQLReq{Graphs: graphs, Runs: []RunSpec{run}, Fault: &FaultSpec{Record: true}})
 	if err != nil {
 		return err
@@ -160,15 +166,36 @@ func checkC20(ctx *pbt.Ctx, c c20Case) error {
 				}
 			}
 		}
+		type mode struct {
+			j       int
+			persist bool
+		}
+		var modes []mode
 		for _, j := range elems {
-			if c.Only != nil && (c.Only[0] != k || c.Only[1] != j) {
+			modes = append(modes, mode{j, false})
+		}
+		// the outage: this call fails and so does every later one
+		modes = append(modes, mode{0, true})
+		if len(elems) > 1 {
+			modes = append(modes, mode{elems[1], true})
+		}
+		for _, md := range modes {
+			j := md.j
+			if c.Only != nil && (c.Only[0] != k || c.Only[1] != j || c.OnlyPersist != md.persist) {
 				continue
 			}
-			out, err := runBQL(BQLReq{Graphs: graphs, Runs: []RunSpec{run}, Leak: true, Fault: &FaultSpec{K: k, Elems: j}})
+			out, err := runBQL(BQLReq{Graphs: graphs, Runs: []RunSpec{run}, Leak: true, Fault: &FaultSpec{K: k, Elems: j, Persist: md.persist}})
 			if err != nil {
 				return err
 			}
 			desc := fmt.Sprintf("%q with driver call #%d (%s in the fault-free run) failing after %d delivered element(s)", c.Text, k, r0.Calls[k], j)
+			if md.persist {
+				desc += " and every later driver call failing too"
+				ctx.Label("mode:outage")
+			}
+			if c.Procs > 0 {
+				desc += fmt.Sprintf(" (GOMAXPROCS %d)", c.Procs)
+			}
 			if out.Crashed {
 				return fmt.Errorf("%s: the process died: %s", desc, lastLines(out.Stderr, 12))
 			}
